@@ -748,6 +748,8 @@ def c02(ctx: Ctx) -> None:
                       'descriptor of the thread that really holds the lock, letting a third contender in',
                       witness=render(g, w), construct=construct_key(f.qualname, 'release without own acquire'))
     _rule_surplus_release(ctx, r, 'C02-R10')
+    ctx.rule('C02-R13', 'counter and descriptor are touched only while the in-process lock is surely held: nothing after an unlock in the same activation (= C12-R10)', 2)
+    _rule_state_after_unlock(ctx, r, 'C02-R13')
     _rule_with_protocol(ctx, r, 'C02-R12', None)
     # R11: who may close a descriptor
     closers = []
@@ -1170,6 +1172,7 @@ def c12(ctx: Ctx) -> None:
             ctx.holds('C12-R10', 'acquire(): every counter update happens with the in-process lock held', f'{FILE}:{r.acquire.lineno}')
     except Undecided as e:
         ctx.undecided('C12-R1', 'acquire()', f'{FILE}:{r.acquire.lineno}', str(e))
+    _rule_state_after_unlock(ctx, r)
     # R1 release (held), R2, R9 ; R4 (unheld)
     try:
         it, outs = run_release(ctx, r, True)
@@ -1307,6 +1310,54 @@ def c12(ctx: Ctx) -> None:
     # R6-R8
     _rule_arguments(ctx, r)
     r.publish(ctx)
+
+
+def _rule_state_after_unlock(ctx: Ctx, r: LockRoles, rule: str = 'C12-R10') -> None:
+    """C12-R10, the other direction: counter and descriptor are the state the in-process lock protects.  Once an
+    activation of acquire() / release() (private helpers read in place) has given a level of that lock back it may have
+    given back the last one, and whatever it reads or writes of that state afterwards belongs to the next holder."""
+    if not r.has_tl:
+        return
+    p = ctx.program
+    for f in (r.acquire, r.release):
+        g = build(f, p, inline_methods=True)
+        unlocks = [n for n in g.nodes if n.kind == 'call' and isinstance(n.ast.func, ast.Attribute) and n.ast.func.attr == 'release'
+                   and _self_attr(n.ast.func.value, r.tl)]
+        bad = None
+        seen: Set[int] = set()
+        # (an unlock that raises has not given anything back)
+        stack = [e.dst for u_ in unlocks for e in g.succ[u_.id] if e.label != 'exc']
+        while stack and bad is None:
+            n = stack.pop()
+            if n.id in seen:
+                continue
+            seen.add(n.id)
+            if n is g.exit or n is g.raise_exit:
+                continue
+            exprs = [x for x in (n.ast, n.meta.get('test'), n.meta.get('value')) if isinstance(x, ast.AST)
+                     and not isinstance(x, (ast.FunctionDef, ast.AsyncFunctionDef, ast.stmt))]
+            if n.kind in ('inline_enter', 'inline_exit', 'with_enter', 'with_exit', 'finally_enter', 'cleanup_end', 'except', 'for_iter', 'while'):
+                exprs = [x for x in (n.meta.get('test'),) if isinstance(x, ast.AST)]
+                if n.kind == 'for_iter' and isinstance(n.ast, (ast.For, ast.AsyncFor)):
+                    exprs.append(n.ast.iter)
+            hit = next((a for x in exprs for a in ast.walk(x) if isinstance(a, ast.Attribute)
+                        and (_self_attr(a, r.cnt) or (r.fd is not None and _self_attr(a, r.fd))
+                             or any(_self_attr(a, lp) for lp in r.locked_props))), None)
+            if hit is not None and not (n.kind == 'call' and n in unlocks):
+                bad = (n, hit)
+                break
+            # a fresh acquisition of the in-process lock starts a new protected region
+            if n.kind == 'call' and isinstance(n.ast.func, ast.Attribute) and n.ast.func.attr == 'acquire' and _self_attr(n.ast.func.value, r.tl):
+                continue
+            for e in g.succ[n.id]:
+                stack.append(e.dst)
+        ctx.check(rule, f'{f.name}(): nothing reads or writes counter / descriptor after giving a level of the in-process lock back '
+                             f'({len(unlocks)} release site(s))', g.loc(bad[0]) if bad else f'{FILE}:{f.lineno}', bad is None and bool(unlocks),
+                  'the protected state is only touched while the lock is surely held',
+                  (f'{norm(bad[0].meta.get("stmt") or bad[0].ast)} touches self.{bad[1].attr} after the in-process lock may have been given up: another '
+                   "thread's acquire() interleaves, its counter is decremented / its lock released by this activation") if bad else
+                  'no release site of the in-process lock found',
+                  construct=construct_key(f.qualname, 'protected state touched after unlock', norm(bad[0].meta.get('stmt') or bad[0].ast) if bad else ''))
 
 
 def _rule_surplus_release(ctx: Ctx, r: LockRoles, rule: str) -> None:
